@@ -16,7 +16,7 @@ import time
 from mc import c19_hashsums as H
 from mc import parallel
 
-PRIM_SIZES = list(range(0, 301))
+PRIM_SIZES = list(range(0, 301)) + [4095, 4096, 4097, 8191, 8192, 8193, 65535, 65536, 65537, 131071, 131072, 131073, 200001]
 
 
 def _jt(t):
@@ -215,7 +215,7 @@ def run(tier, seed):
             "alphabet name or a fresh third name, add file/empty dir under every free name + fresh name in every dir, remove, file->dir, dir->file, "
             "retarget of every link to every other file/dir of the tree and to a fresh dangling name; an edit whose result is in the grammar is decided "
             "by the grouping, any other is built and compared. Plus byte flip at every position of one-file trees for all sizes, and "
-            f"hashsum/qualified_hashsum/file_hashsum vs hashlib for every size 0..{PRIM_SIZES[-1]} with bytes, BytesIO, short-read streams. "
+            f"hashsum/qualified_hashsum/file_hashsum vs hashlib for every size 0..300 and sizes around 4 KiB / 8 KiB / 64 KiB / 128 KiB / 200001 with bytes, BytesIO, short-read streams. "
             "distinct_nontrivial = number of distinct canonical content descriptions with >= 1 entry among the accepted grammar trees (counted from a set). "
             "VERIF_SEED only respells names, base dir name, dangling names and payload bytes."
         ),
